@@ -86,13 +86,13 @@ theorem C02_or_group (env : Nat → V3) (e1 e2 : Ex) (r : List Ex)
 
 theorem AtomKind.pol_negate (k : AtomKind) : k.negate.pol = !k.pol := by cases k <;> rfl
 
-def atomVal (env : Nat → V3) (a : Atom) : V3 := if a.kind.pol then env a.id else (env a.id).not
+def cmpVal (env : Nat → V3) (a : Atom) : V3 := if a.kind.pol then env a.id else (env a.id).not
 
-theorem unitVal_atom (env : Nat → V3) (a : Atom) : unitVal env (.atom a) = atomVal env a := by
-  simp [unitVal, sqlEval, Ex.build, expandFlat, expandItem, List.cons_append, List.nil_append, Atom.core, evalFlat, evalCore, applyNegs_zero, evalRuns, atomVal]
+theorem unitVal_cmp (env : Nat → V3) (a : Atom) : unitVal env (.atom a) = cmpVal env a := by
+  simp [unitVal, sqlEval, Ex.build, expandFlat, expandItem, List.cons_append, List.nil_append, Atom.core, evalFlat, evalCore, applyNegs_zero, evalRuns, cmpVal]
 
-theorem atomVal_negate (env : Nat → V3) (a : Atom) : atomVal env a.negate = (atomVal env a).not := by
-  unfold atomVal
+theorem cmpVal_negate (env : Nat → V3) (a : Atom) : cmpVal env a.negate = (cmpVal env a).not := by
+  unfold cmpVal
   show (if a.kind.negate.pol = true then env a.id else (env a.id).not) = _
   rw [AtomKind.pol_negate]
   cases a.kind.pol <;> simp
@@ -100,13 +100,13 @@ theorem atomVal_negate (env : Nat → V3) (a : Atom) : atomVal env a.negate = (a
 /-- `Not` of one generated comparison is its negation (`NegationBuild`: Eq↔Neq, Gt→Lte, …) -/
 theorem C02_not_atom (env : Nat → V3) (a : Atom) :
     unitVal env (.not [.atom a]) = (unitVal env (.atom a)).not := by
-  rw [unitVal_atom, ← atomVal_negate, ← unitVal_atom]
+  rw [unitVal_cmp, ← cmpVal_negate, ← unitVal_cmp]
   simp [unitVal, Ex.build, Ex.negatable, notListA]
 
 /-- AND of the negations of the member comparisons -/
 def allFalse (env : Nat → V3) (cur : V3) : List Atom → V3
   | [] => cur
-  | a :: r => allFalse env (cur.and (atomVal env a).not) r
+  | a :: r => allFalse env (cur.and (cmpVal env a).not) r
 
 theorem notListA_atoms (env : Nat → V3) (as : List Atom) (acc cur : V3) :
     evalRuns env acc cur (expandFlat (notListA (as.map Ex.atom))) = acc.or (allFalse env cur as) := by
@@ -115,16 +115,16 @@ theorem notListA_atoms (env : Nat → V3) (as : List Atom) (acc cur : V3) :
   | cons a r ih =>
     simp only [List.map_cons, notListA, expandFlat, expandItem, List.cons_append, List.nil_append, evalRuns, evalCore, Atom.core, applyNegs_zero, allFalse]
     rw [ih]
-    have : (if a.negate.kind.pol = true then env a.negate.id else (env a.negate.id).not) = (atomVal env a).not := by
-      rw [← atomVal_negate]; rfl
+    have : (if a.negate.kind.pol = true then env a.negate.id else (env a.negate.id).not) = (cmpVal env a).not := by
+      rw [← cmpVal_negate]; rfl
     rw [this]
 
 theorem evalFlat_notListA_atoms (env : Nat → V3) (a : Atom) (as : List Atom) :
     evalFlat env (expandFlat (notListA ((a :: as).map Ex.atom))) = allFalse env .t (a :: as) := by
   simp only [List.map_cons, notListA, expandFlat, expandItem, List.cons_append, List.nil_append, evalFlat, evalCore, Atom.core, applyNegs_zero]
   rw [notListA_atoms]
-  have e1 : (if a.negate.kind.pol = true then env a.negate.id else (env a.negate.id).not) = (atomVal env a).not := by
-    rw [← atomVal_negate]; rfl
+  have e1 : (if a.negate.kind.pol = true then env a.negate.id else (env a.negate.id).not) = (cmpVal env a).not := by
+    rw [← cmpVal_negate]; rfl
   rw [e1]
   simp [allFalse]
 
